@@ -65,6 +65,14 @@ func H_C08_spnego_wrap() {
 			}
 		}
 	}
+	// an earlier result is not disturbed by later calls (no storage shared between results): wrap a shorter token afterwards
+	if err == nil {
+		keep := append([]byte{}, init...)
+		other := vBytes("other", L/2)
+		_, _ = CreateNegTokenInit(other)
+		_, _ = CreateNegTokenResp(AcceptIncomplete, NtlmOID, other)
+		vCheck(vBytesEq(init, keep), "spnego/init/result-not-disturbed-by-later-calls")
+	}
 	resp, err := CreateNegTokenResp(AcceptIncomplete, NtlmOID, token)
 	vCheck(err == nil, "spnego/resp/ok")
 	vCheck(len(resp) > 2 && resp[0] == 0x60, "spnego/resp/application-tag")
@@ -78,6 +86,11 @@ func H_C08_spnego_wrap() {
 			vCheck(p.SupportedMech.Equal(NtlmOID), "spnego/resp/mech")
 			vCheck(vBytesEq(p.ResponseToken, token), "spnego/resp/parse-of-wrap-identity")
 		}
+		keep := append([]byte{}, resp...)
+		other := vBytes("other2", L/2)
+		_, _ = CreateNegTokenResp(AcceptIncomplete, NtlmOID, other)
+		_, _ = CreateNegTokenInit(other)
+		vCheck(vBytesEq(resp, keep), "spnego/resp/result-not-disturbed-by-later-calls")
 		got, err := ExtractNTLMToken(resp)
 		if L > 0 {
 			vCheck(err == nil, "spnego/resp/extract-ok")
